@@ -101,6 +101,13 @@ def laurent_case(ctx, A, LP, rng):
         if j % 2 == parity:
             j = max(0, j - 1)
         p[j] = float(rng.choice([1e-6, 0.01, 1.0, -3.0]))
+        if rng.random() < 0.5:
+            # a minority part just above the 1e-8 detection threshold next to a LARGE majority part (the refusal must not
+            # depend on the scale of the rest): low index, so that the Chebyshev coefficient is about the value itself
+            p[j] = 0.0
+            big = float(rng.choice([1.0, 30.0, 1e3, 1e5, 1e7]))
+            p = [x * big for x in p]
+            p[parity ^ 1] = float(rng.choice([-1, 1])) * float(rng.choice([3e-8, 1e-7, 1e-6, 1e-4, 1e-2]))
     pv = [F(x) for x in p]
     py1 = py_call(lambda: A.poly2laurent(np.array(p, dtype=float)))
     py2 = py_call(lambda: LP.PolynomialToLaurentForm(list(p)))
